@@ -8,6 +8,7 @@ package main
 import (
 	"bytes"
 	"fmt"
+	"hash/crc32"
 	"io"
 	"os"
 	"sort"
@@ -26,6 +27,7 @@ type H struct {
 	r             *hlib.Run
 	rng           *hlib.Rand
 	notedResOnly  bool
+	files         [][]byte // small valid files, seeds for the malformed-file section
 	notedZlibDict bool
 }
 
@@ -926,6 +928,9 @@ func (h *H) writerRun(c wcfg, payload []byte, parts []int) {
 	if len(payload) > 0 {
 		r.Nontrivial(fmt.Sprintf("%s|%d|%d", c.opLine(), len(payload), len(parts)))
 	}
+	if len(file) <= 1500 && len(h.files) < 400 {
+		h.files = append(h.files, append([]byte(nil), file...))
+	}
 }
 
 func readAll(file []byte, cr rac.CodecReader) (got []byte, err error) {
@@ -1049,6 +1054,87 @@ func (h *H) writerRuns(n int) {
 		c.cchunk, c.dchunk = 0, 0
 		c.loc, c.tempKind = 0, 0
 		h.writerRun(c, h.payload(sz, 2, 65536), h.partition(sz, 9))
+	}
+}
+
+// ---------------------------------------------------------------- malformed files
+
+// fixChecksums recomputes the checksum of everything in file that looks like an
+// index node (magic, arity at both ends), so that a mutation inside a node gets
+// past the checksum rule and reaches the deeper validation rules.
+func fixChecksums(file []byte) {
+	for i := 0; i+32 <= len(file); i++ {
+		if file[i] != 0x72 || file[i+1] != 0xC3 || file[i+2] != 0x63 || file[i+3] == 0 {
+			continue
+		}
+		size := int(file[i+3])*16 + 16
+		if i+size > len(file) || file[i+size-1] != file[i+3] {
+			continue
+		}
+		ck := crc32.ChecksumIEEE(file[i+6 : i+size])
+		ck ^= ck >> 16
+		file[i+4], file[i+5] = byte(ck), byte(ck>>8)
+	}
+}
+
+// specMutations feeds corrupted RAC files to the two spec readers (Lean `Spec`,
+// Go specwalk.go): they must reach the same verdict, rule by rule. The reader
+// the round-trip theorem is stated against must not be more permissive than
+// its Go twin, nor reject what the twin accepts.
+func (h *H) specMutations(n int) {
+	if len(h.files) == 0 {
+		return
+	}
+	special := []byte{0x00, 0x01, 0xBF, 0xC0, 0xFC, 0xFD, 0xFE, 0xFF, 0x80, 0x40, 0x3E}
+	for i := 0; i < n; i++ {
+		f := append([]byte(nil), h.files[h.rng.Intn(len(h.files))]...)
+		kind := h.rng.Intn(8)
+		// where the index is: the first or the last 400 bytes
+		pos := func() int {
+			w := 400
+			if w > len(f) {
+				w = len(f)
+			}
+			if h.rng.Bool() {
+				return h.rng.Intn(w)
+			}
+			return len(f) - 1 - h.rng.Intn(w)
+		}
+		switch kind {
+		case 0: // a byte flip anywhere in the index area, checksum left stale
+			f[pos()] ^= byte(1 << uint(h.rng.Intn(8)))
+		case 1, 2, 3: // a special value somewhere in the index area, checksums repaired
+			for k := h.rng.Range(1, 2); k > 0; k-- {
+				f[pos()] = special[h.rng.Intn(len(special))]
+			}
+			fixChecksums(f)
+		case 4: // small arithmetic change of a byte, checksums repaired
+			f[pos()] += byte(h.rng.Range(1, 3))
+			fixChecksums(f)
+		case 5: // truncated
+			f = f[:len(f)-h.rng.Range(1, 40)%len(f)]
+		case 6: // trailing / leading garbage
+			if h.rng.Bool() {
+				f = append(f, h.rng.Bytes(h.rng.Range(1, 40))...)
+			} else {
+				f = append(h.rng.Bytes(h.rng.Range(1, 40)), f...)
+			}
+		case 7: // two 8-byte segments swapped, checksums repaired
+			a, b := pos()&^7, pos()&^7
+			if a+8 <= len(f) && b+8 <= len(f) {
+				for k := 0; k < 8; k++ {
+					f[a+k], f[b+k] = f[b+k], f[a+k]
+				}
+			}
+			fixChecksums(f)
+		}
+		v := sVerdict(f)
+		h.r.Op("spec "+hlib.Hex(f), v)
+		w := v
+		if k := strings.IndexByte(v, ' '); k >= 0 && strings.HasPrefix(v, "ok") {
+			w = "ok"
+		}
+		h.r.Count("specmut:" + w)
 	}
 }
 
@@ -1383,9 +1469,10 @@ func main() {
 	section("gather", func() { h.gatherOps(150 * scale) })
 	section("cw", func() { h.cwRuns(120 * scale) })
 	section("writer", func() { h.writerRuns(700 * scale) })
+	section("specmut", func() { h.specMutations(1500 * scale) })
 	section("real", func() { h.realRuns(200 * scale) })
 	r.Finish("cases: writeBuffer states over {0,1,2,3}-bytes; leaf lists at the arity thresholds (84..86, 254..257, 509..511, 65025..65281); " +
 		"ChunkWriter op sequences (resources, zero-size/invalid/mixed-codec chunks, both index locations, page sizes 0/2/4/8/128/4096, temp-file kinds, fault at call k); " +
 		"rac.Writer runs with the harness codec (CChunkSize 1..300 forcing Cut, DChunkSize 1..1000, default; payload styles all-zero/random/zero-runs/zero-runs at chunk boundaries/text/sparse, 0..300 KiB; write partitions whole/1/2/7/random/with empty writes; resources 0..3; faults at every call k<=50 and random later) " +
-		"and with raczlib/raclz4/raczstd. Non-trivial = a Writer/ChunkWriter run whose Close returned nil with a non-empty payload and passed spec validation + round trip (distinct by configuration, payload length, partition length), or an apz case with non-zero bytes left in prev and a leading zero in curr.")
+		"and with raczlib/raclz4/raczstd; corrupted copies of small valid files (byte flips, reserved/special tag values, swapped segments with repaired checksums, truncation, garbage) through both spec readers. Non-trivial = a Writer/ChunkWriter run whose Close returned nil with a non-empty payload and passed spec validation + round trip (distinct by configuration, payload length, partition length), or an apz case with non-zero bytes left in prev and a leading zero in curr.")
 }
